@@ -55,8 +55,17 @@ def vrun(fn, v):
 def main():
     req = json.load(sys.stdin)
     out = {"validators": {n: [vrun(getattr(validators, n), v) for v in req["values"]] for n in ("integer_validator", "uinteger_validator")}, "fields": []}
+    def attr_for(cls, wire):
+        for a in attrs.fields(cls):
+            n = a.name[:-1] if a.name.endswith("_") else a.name
+            parts = n.split("_")
+            if parts[0] + "".join(p.title() for p in parts[1:]) == wire:
+                return a.name
+        return wire
+
     for f in req["fields"]:
         cls = getattr(T, f["cls"])
+        f["attr"] = attr_for(cls, f["wire"])
         ctor, cv = [], []
         try:
             base_obj = conv.structure(f["base"], cls)
